@@ -86,17 +86,36 @@ Example utf8_roundtrip_instance :
 Proof. split; vm_compute; reflexivity. Qed.
 Print Assumptions utf8_roundtrip_instance.
 
-(* FULL statement without the pairing hypothesis is false of the model and of the library (known
-   finding K7): a lone low surrogate is written as a 3-byte sequence that no UTF-8 decoder accepts *)
-Theorem utf8_roundtrip_lone_low_refuted :
-  payload (u8_str [56832]) = Ok [237; 184; 128] /\ utf8_decode 4 [237; 184; 128] = None /\
-  code_points [56832] = None.
-Proof. exact utf8_lone_low_refuted. Qed.
-Print Assumptions utf8_roundtrip_lone_low_refuted.
+(* unpaired surrogates (K7, repaired): every string with an unpaired surrogate anywhere is an error,
+   never bytes — in the UTF-8 writer and in the UTF-16 writer's character-data path *)
+Theorem utf8_lone_low_is_an_error : forall c r, is_low c = true ->
+  payload (u8_str (c :: r)) = Thrown err_surrogate.
+Proof. exact utf8_lone_low_throws. Qed.
+Print Assumptions utf8_lone_low_is_an_error.
 
 Theorem utf8_lone_high_is_an_error : forall c, is_high c = true -> payload (u8_str [c]) = Thrown err_surrogate.
 Proof. exact utf8_lone_high_throws. Qed.
 Print Assumptions utf8_lone_high_is_an_error.
+
+Theorem utf8_unpaired_surrogate_fails : forall s, code_points s = None ->
+  exists code, payload (u8_str s) = Thrown code.
+Proof. exact utf8_unpaired_is_an_error_strong. Qed.
+Print Assumptions utf8_unpaired_surrogate_fails.
+
+Theorem utf16_unpaired_surrogate_fails : forall s, code_points s = None ->
+  exists code, payload (u16_chars s) = Thrown code.
+Proof. exact u16_unpaired_is_an_error. Qed.
+Print Assumptions utf16_unpaired_surrogate_fails.
+
+Theorem utf16_paired_is_verbatim : forall s cps, code_points s = Some cps -> payload (u16_chars s) = Ok s.
+Proof. exact u16_chars_verbatim. Qed.
+Print Assumptions utf16_paired_is_verbatim.
+
+Example unpaired_surrogate_instances :
+  code_points [97; 56832; 98] = None /\ code_points [97; 55357] = None /\
+  code_points [55357; 56832] = Some [128512].
+Proof. repeat split; vm_compute; reflexivity. Qed.
+Print Assumptions unpaired_surrogate_instances.
 
 (* ---- escaping: what a conforming parser reads back ------------------------------------------------- *)
 (* wf_text v11 s: s is a sequence of Chars of that XML version with paired surrogates.  The reader
@@ -140,10 +159,23 @@ Print Assumptions roundtrip_hypotheses_satisfiable.
 (* forbidden_char_fails / its converse at table level: under XML 1.0 the characters that raise the
    error are exactly the non-Chars below 0x80; the 1.1 table forbids nothing (controls are written as
    references) *)
-Theorem forbidden_char_fails : forall v11 s, (exists c, In c s /\ p_forbidden v11 c = true) ->
+Theorem forbidden_char_fails : forall v11 s, sur_paired s = true ->
+  (exists c, In c s /\ p_forbidden v11 c = true) ->
   payload (write_content fam_utf16 v11 s) = Thrown err_forbidden.
 Proof. exact SerEscModel.forbidden_char_fails. Qed.
 Print Assumptions forbidden_char_fails.
+
+(* without the pairing hypothesis the exception is the surrogate one (still an error, never bytes) *)
+Theorem forbidden_char_fails_unpaired_witness :
+  p_forbidden false 0 = true /\ payload (write_content fam_utf16 false [55296; 0]) = Thrown err_surrogate.
+Proof. exact forbidden_char_fails_unpaired_refuted. Qed.
+Print Assumptions forbidden_char_fails_unpaired_witness.
+
+Theorem content_is_ok_or_forbidden_error : forall v11 s, sur_paired s = true ->
+  match payload (write_content fam_utf16 v11 s) with
+  | Ok _ => True | Thrown k => k = err_forbidden | Oob => False end.
+Proof. exact content_no_other_exception. Qed.
+Print Assumptions content_is_ok_or_forbidden_error.
 
 Theorem forbidden_iff_not_char_1_0 : forall c, c < 128 -> p_forbidden false c = negb (xml_char false c).
 Proof. exact forbidden_iff_not_char_1_0'. Qed.
@@ -153,45 +185,36 @@ Theorem no_forbidden_1_1 : forall c, p_forbidden true c = false.
 Proof. exact SerEscModel.no_forbidden_1_1. Qed.
 Print Assumptions no_forbidden_1_1.
 
-(* cdata_roundtrip.  FULL statement (kept visible):
-     forall v11 s, wf_text v11 s = true -> s <> [] ->
-       exists bs, payload (write_cdata fam_utf16 v11 s) = Ok bs /\ parse_content v11 bs = Some s
-   is FALSE of the model and of the library (finding K-new-1): a CR is written literally inside the
-   CDATA section and read back as LF; under 1.1 also U+0085 and U+2028, and a 1.1 control character
-   raises an exception (K-new-2). *)
-Theorem cdata_roundtrip_refuted :
-  ~ (forall v11 s, wf_text v11 s = true -> s <> [] ->
-       exists bs, payload (write_cdata fam_utf16 v11 s) = Ok bs /\ parse_content v11 bs = Some s).
-Proof. exact cdata_roundtrip_false. Qed.
-Print Assumptions cdata_roundtrip_refuted.
-
-Theorem cdata_roundtrip_cr_witness : forall v11,
-  wf_text v11 [13] = true /\
-  payload (write_cdata fam_utf16 v11 [13]) = Ok (s_cdata_open ++ [13] ++ s_cdata_close) /\
-  parse_content v11 (s_cdata_open ++ [13] ++ s_cdata_close) = Some [10].
-Proof. exact SerEscModel.cdata_roundtrip_refuted. Qed.
-Print Assumptions cdata_roundtrip_cr_witness.
-
-(* with the exact guard (no CR; 1.1: no NEL, LSEP, control characters) every string round-trips,
-   including every placement of "]]>" (split by the look-ahead taken from the source) *)
-Theorem cdata_roundtrip_partial : forall v11 s, wf_text v11 s = true ->
-  ~ In 13 s ->
-  (v11 = true -> ~ In 133 s /\ ~ In 8232 s /\ forall c, In c s -> p_crforbidden true c = false) ->
+(* cdata_roundtrip — now the FULL statement (K-new-1, K-new-2 repaired): every string of Chars with
+   paired surrogates, including CR, NEL, LSEP, XML 1.1 control characters and every placement of
+   "]]>", is read back exactly from the CDATA sections and character references that are written *)
+Theorem cdata_roundtrip : forall v11 s, wf_text v11 s = true ->
   exists bs, payload (write_cdata fam_utf16 v11 s) = Ok bs /\ parse_content v11 bs = Some s.
-Proof. exact SerEscModel.cdata_roundtrip_partial. Qed.
-Print Assumptions cdata_roundtrip_partial.
+Proof. exact SerEscModel.cdata_roundtrip. Qed.
+Print Assumptions cdata_roundtrip.
 
 Example cdata_roundtrip_instance :
-  payload (write_cdata fam_utf16 false [93; 93; 62; 93; 93; 93; 62])
-  = Ok (s_cdata_open ++ [93; 93] ++ s_cdata_close ++ s_cdata_open ++ [62; 93] ++ [93; 93] ++ s_cdata_close
-        ++ s_cdata_open ++ [62] ++ s_cdata_close).
+  payload (write_cdata fam_utf16 true [97; 13; 93; 93; 62; 1; 98])
+  = Ok (s_cdata_open ++ [97] ++ s_cdata_close ++ charref 13 ++ s_cdata_open ++ [93; 93] ++ s_cdata_close
+        ++ s_cdata_open ++ [62] ++ s_cdata_close ++ charref 1 ++ s_cdata_open ++ [98] ++ s_cdata_close).
 Proof. vm_compute. reflexivity. Qed.
 Print Assumptions cdata_roundtrip_instance.
 
-(* comment_roundtrip is FALSE for encodings with unrepresentable characters (known finding K4):
-   the reference is literal text inside a comment *)
-Theorem comment_roundtrip_refuted :
-  payload (write_comment (fam_other rep_ascii) false [8364]) =
-  Ok ([60; 33; 45; 45] ++ [38; 35; 56; 51; 54; 52; 59] ++ [45; 45; 62]).
-Proof. exact comment_charref_refuted. Qed.
-Print Assumptions comment_roundtrip_refuted.
+(* comments and PIs (K4 repaired): nothing is ever turned into a character reference there; a
+   character outside the encoding is an exception; under UTF-16 the data is written verbatim *)
+Theorem comment_unrepresentable_fails :
+  payload (write_comment (fam_other rep_ascii) false [120; 8364]) = Thrown err_unrepresentable.
+Proof. exact SerEscModel.comment_unrepresentable_fails. Qed.
+Print Assumptions comment_unrepresentable_fails.
+
+Theorem comment_verbatim : forall v11 s, wf_text v11 s = true ->
+  (forall c, In c s -> p_crforbidden v11 c = false) ->
+  payload (write_comment fam_utf16 v11 s) = Ok ([60; 33; 45; 45] ++ s ++ [45; 45; 62]).
+Proof. exact SerEscModel.comment_verbatim. Qed.
+Print Assumptions comment_verbatim.
+
+Theorem comment_never_writes_a_reference : forall rep v11 s bs, (forall c, c < 128 -> rep c = true) ->
+  payload (write_comment (fam_other rep) v11 s) = Ok bs -> wf_text v11 s = true -> small s = true ->
+  bs = [60; 33; 45; 45] ++ s ++ [45; 45; 62].
+Proof. exact SerEscModel.comment_never_writes_a_reference. Qed.
+Print Assumptions comment_never_writes_a_reference.
